@@ -317,6 +317,49 @@ theorem strip_one_keeps_every_character (ts : Toks) (i : Nat)
     rfl
   · rfl
 
+/-- **remove_all_reference_marks** (`strip_tags` with several tags at once: point marks, start and end tags of ranges):
+    every character stays, in order -/
+theorem strip_kinds_keeps_every_character (ks : List Nat) (hk : ∀ k ∈ ks, k ≠ 1 ∧ k ≠ 2 ∧ k ≠ 3) (ts : Toks) :
+    rawAll (stripKinds ks ts) = rawAll ts := by
+  unfold stripKinds
+  induction ks generalizing ts with
+  | nil => rfl
+  | cons k ks ih =>
+    simp only [List.foldl_cons]
+    rw [ih (fun k' hk' => hk k' (List.mem_cons_of_mem _ hk')), strip_keeps_every_character k (hk k (List.mem_cons_self ..))]
+
+/-- none of the elements stripped one after the other is a white-space element (`text:s`, `text:tab`, `text:line-break`
+    stand for characters; the range tags `remove_reference_mark` strips are of kinds 10 and 11) -/
+def StripOk : List Nat → Toks → Prop
+  | [], _ => True
+  | i :: is, ts => (∀ k l h, ts[i]? = some (.op k l h) → k ≠ 1 ∧ k ≠ 2 ∧ k ≠ 3) ∧ StripOk is (stripAt ts i)
+
+/-- **remove_reference_mark** (`strip_elements` of the start and the end tag of one range, any number of elements): every
+    character stays, in order -/
+theorem strip_elements_keeps_every_character (is : List Nat) (ts : Toks) (hk : StripOk is ts) :
+    rawAll (stripAts is ts) = rawAll ts := by
+  unfold stripAts
+  induction is generalizing ts with
+  | nil => rfl
+  | cons i is ih =>
+    simp only [List.foldl_cons]
+    rw [ih _ hk.2, strip_one_keeps_every_character ts i hk.1]
+
+/-- a range inside a span that follows another element: both tags go, the text stays -/
+example :
+    let ts : Toks := [.op 4 0 false, .txt false false "aaa".toList, .cl, .op 4 1 false, .op 10 2 false, .cl, .txt false false "bbb".toList, .op 11 3 false, .cl, .txt false false "c".toList, .cl]
+    StripOk [7, 4] ts ∧ stripAts [7, 4] ts = [.op 4 0 false, .txt false false "aaa".toList, .cl, .op 4 1 false, .txt false false "bbbc".toList, .cl] := by
+  refine ⟨⟨?_, ?_, trivial⟩, by decide +kernel⟩
+  · intro k l h hh
+    have : (Tok.op 11 3 false) = Tok.op k l h := by simpa using hh
+    cases this; decide
+  · intro k l h hh
+    have e : stripAt [Tok.op 4 0 false, .txt false false "aaa".toList, .cl, .op 4 1 false, .op 10 2 false, .cl, .txt false false "bbb".toList, .op 11 3 false, .cl, .txt false false "c".toList, .cl] 7
+        = [.op 4 0 false, .txt false false "aaa".toList, .cl, .op 4 1 false, .op 10 2 false, .cl, .txt false false "bbbc".toList, .cl] := by decide +kernel
+    rw [e] at hh
+    have : (Tok.op 10 2 false) = Tok.op k l h := by simpa using hh
+    cases this; decide
+
 /-! ### non-vacuity -/
 
 -- 'ab cd' with a span over 'b c' (offset 1, length 3), then a bookmark at position 2
